@@ -5,7 +5,7 @@ CFG = {
     "props_module": "RpmVerif.Props.C09",
     "required_theorems": ["RpmVerif.C09.fromEntries_valid", "RpmVerif.C09.slots_nonempty", "RpmVerif.C09.builder_records_nonempty",
                           "RpmVerif.C09.builder_tags_legal", "RpmVerif.C09.builder_records_ok", "RpmVerif.C09.build_header_valid",
-                          "RpmVerif.C09.sign_clear_valid", "RpmVerif.C09.lead_valid", "RpmVerif.C09.sigPadding_written",
+                          "RpmVerif.C09.sign_clear_valid", "RpmVerif.C09.sign_clear_valid_discharged", "RpmVerif.C09.sigsOk_of_build", "RpmVerif.C09.lead_valid", "RpmVerif.C09.sigPadding_written",
                           "RpmVerif.C09.rpmlib_declared", "RpmVerif.C09.build_rpmlib_valid",
                           "RpmVerif.C09.cpioCheck_archiveOf", "RpmVerif.C09.cpioCheck_stripped", "RpmVerif.C09.headerFiles_built",
                           "RpmVerif.C09.payload_valid_std", "RpmVerif.C09.payload_valid_large", "RpmVerif.C09.compressor_magic_valid",
@@ -39,7 +39,10 @@ CFG = {
                   "non-empty data yields a header satisfying every header rule (region entry and trailer, strictly ascending tags via the stable sort, legal types, "
                   "counts >= 1, type alignment, sequential non-overlapping in-range data, terminated strings); every one of the builder's 102 record slots is non-empty "
                   "and carries a tag >= 100, so the main header of every valid configuration is valid; every signature header built by build / sign / build_and_sign / "
-                  "clear_signatures is valid (tags 278, 267|268, 273); lead fields; zero padding to 8; the rpmlib() features used are declared (zstd, xz, bzip2, FileCaps, "
+                  "clear_signatures is valid (tags 278, 267|268, 273) — since session 5 with the 267|268 condition DISCHARGED: sign_clear_valid_discharged speaks about "
+                  "whatever the fallible model of SignatureHeaderBuilder::build (Sign.sigBuilderBuild: parse, match on the public-key algorithm, encode) returns, and every "
+                  "arm of that match — a table scraped from the source by tools/gen/sig_algs.py — selects RPMSIGTAG_RSA or RPMSIGTAG_DSA (sigsOk_of_build, "
+                  "Sign.legacyTagOf_mem_range; exercised for all 256 algorithm numbers by C10's op sgbuild); lead fields; zero padding to 8; the rpmlib() features used are declared (zstd, xz, bzip2, FileCaps, "
                   "LargeFiles and the three base features); the archive the builder writes (standard and large-file form) passes the cpio rules against the header "
                   "built from the same files; build_valid combines all of it with write -> parse = identity into PackageValid of the written bytes; history_valid: any valid package (built or foreign) stays valid under every sign / clear history. The two repaired "
                   "defects (count-0 interpreter entry, undeclared xz/bzip2) are proved to be violations of the spec. The validator itself runs on the bytes of every "
